@@ -5,6 +5,7 @@ package argmapper
 
 import (
 	"fmt"
+	"go/token"
 	"reflect"
 	"strings"
 
@@ -117,10 +118,23 @@ func NewValueSet(vs []Value) (*ValueSet, error) {
 		if v.Subtype != "" {
 			tags = append(tags, fmt.Sprintf("subtype=%s", v.Subtype))
 		}
-		tag := reflect.StructTag(fmt.Sprintf(`argmapper:"%s"`, strings.Join(tags, ",")))
+		rawTag := strings.Join(tags, ",")
+		tag := reflect.StructTag(fmt.Sprintf(`argmapper:"%s"`, rawTag))
+
+		// The subtype travels through a struct tag, where a comma ends the
+		// option and a quote, backslash or newline ends or alters the tag:
+		// such a subtype would come back as a different value.
+		if strings.Contains(v.Subtype, ",") || tag.Get("argmapper") != rawTag {
+			return nil, fmt.Errorf("subtype %q cannot be represented in a value set", v.Subtype)
+		}
 
 		switch v.Kind() {
 		case ValueNamed:
+			// The name becomes a struct field name.
+			if fieldName := strings.ToUpper(v.Name); !token.IsIdentifier(fieldName) || !token.IsExported(fieldName) {
+				return nil, fmt.Errorf("name %q cannot be represented in a value set", v.Name)
+			}
+
 			sf = append(sf, reflect.StructField{
 				Name: strings.ToUpper(v.Name),
 				Type: v.Type,
